@@ -1129,6 +1129,27 @@ func (h *vfE2H) genOp(malformed bool) {
 			return
 		}
 		h.exec(fmt.Sprintf("fin %d %d", cn.k, held[r.Intn(len(held))]))
+	case pick < 615 && len(subs) > 0:
+		// requeue chain: the same message is requeued immediately several times by whoever holds it
+		cn := subs[r.Intn(len(subs))]
+		held := h.heldBy(cn)
+		ch := h.chanOf(cn)
+		if len(held) == 0 || ch == nil {
+			return
+		}
+		seq := held[r.Intn(len(held))]
+		for i := 0; i < 2+r.Intn(5) && !h.aborted; i++ {
+			k, ok := ch.holder[seq]
+			if !ok {
+				break
+			}
+			h.parkEphemeral([]*vfE2Chan{ch})
+			if _, still := ch.holder[seq]; !still {
+				break
+			}
+			h.exec(fmt.Sprintf("req %d %d 0", k, seq))
+		}
+		h.count("gen:requeue-chain")
 	case pick < 690 && len(subs) > 0:
 		cn := subs[r.Intn(len(subs))]
 		held := h.heldBy(cn)
@@ -1303,6 +1324,7 @@ func (h *vfE2H) genMalformed(subs []*vfE2Conn) {
 			tok = "f8"
 		} else {
 			tok = strconv.Itoa(os[r.Intn(len(os))])
+			h.count("malformed:wrong-connection")
 		}
 	case 3: // located but not in flight (queued / deferred / timed out already)
 		var qs []int
